@@ -54,7 +54,7 @@ ATOMS = ["\\300", "\\256", "\\999", "\\00", "\\0", "\\", "\\1a2", '""', '"', "("
 
 
 def shards(tier, seed):
-    mult = 1 if tier == "quick" else 12
+    mult = 1 if tier == "quick" else 24
     types = GR.ALL_TYPES
     return [{"types": types[i::16], "n": 2600 * mult} for i in range(16)]
 
